@@ -80,4 +80,20 @@ theorem cruise_step (pt : Pt ℝ) (step : ℝ) (p : Perf ℝ) (g : Pos ℝ) :
     (simp only [Kern.crz_step_fuel_mass, Kern.crz_step_aircraft_mass, Kern.crz_step_ground_distance, Kern.crz_step_flight_time,
       Kern.crz_step_true_airspeed, Kern.crz_step_ground_speed_still_air] <;> crz_close)
 
+/-! ## mass iteration of the builder base class (`trajectories/builders/base.py`) -/
+
+/-- attribute environment of the builder during a flight: starting mass and trip fuel of the current iterate -/
+def iterEnv (sm tfm : ℝ) : String → ℝ := fun k =>
+  if k = "self.starting_mass" then sm else if k = "self.total_fuel_mass" then tfm else 0
+
+/-- the residual `_fly_iteration` returns and the correction one pass of the `while` loop of `_iterate_mass` applies, as the source
+    text says them: the residual of the model's `flyIteration` and the `sm'`, `tfm'` of its `iterLoop` -/
+theorem iterate_mass (sm tfm res finalMass : ℝ) :
+    Kern.iter_mass_residual (iterEnv sm tfm) finalMass = (tfm - (sm - finalMass)) / tfm ∧
+    Kern.iter_correct_starting_mass (iterEnv sm tfm) res = sm - res * tfm ∧
+    Kern.iter_correct_total_fuel_mass (iterEnv sm tfm) res = tfm - res * tfm := by
+  refine ⟨?_, ?_, ?_⟩ <;>
+    simp only [Kern.iter_mass_residual, Kern.iter_correct_starting_mass, Kern.iter_correct_total_fuel_mass, iterEnv,
+      String.reduceEq, if_true, if_false]
+
 end KernelBridge3
